@@ -37,8 +37,13 @@ KNOWN_LISTS_AUG = 'lists-augassign-subscript-operator-missing'
 
 
 def generate():
+    from translate import c01_ops
     text, _ = c01_pipeline.translate(vlib.REPO)
     vlib.write_if_changed(os.path.join(vlib.COQ, 'Generated', 'C01_pipeline_gen.v'), text)
+    try:
+        vlib.write_if_changed(os.path.join(vlib.COQ, 'Generated', 'C01_ops_gen.v'), c01_ops.translate(vlib.REPO))
+    except c01_ops.Untranslatable as e:
+        raise c01_pipeline.Untranslatable(str(e))
 
 
 def option_sets():
@@ -223,6 +228,154 @@ def semantic_cases(mod, sem_inputs, rnd, nvec):
         evmaps[idx] = '[%s]' % '; '.join('(%d, [%s])' % (l, '; '.join(map(pe, e))) for l, e in em if e)
     n = max(evmaps) + 1 if evmaps else 0
     return terms, meta, '[%s]' % ';\n'.join(evmaps.get(i, '[]') for i in range(n)), stats
+
+
+def _gen_vexpr(rnd, depth, keys):
+    """random expression over V(k) / W(k, ...) atoms, and / or / not / conditional expressions / comparison chains"""
+    c = rnd.random()
+    if depth >= 3 or c < 0.25:
+        keys[0] += 1
+        return 'V(%d)' % keys[0]
+    sub = lambda: _gen_vexpr(rnd, depth + 1, keys)
+    if c < 0.40:
+        return '(%s)' % (' %s ' % rnd.choice(['and', 'or'])).join(sub() for _ in range(rnd.randint(2, 3)))
+    if c < 0.50:
+        return '(not %s)' % sub()
+    if c < 0.62:
+        return '(%s if %s else %s)' % (sub(), sub(), sub())
+    if c < 0.82:
+        parts = [sub()]
+        for _ in range(rnd.randint(1, 3)):
+            parts += [rnd.choice(['==', '!=', '<', '<=', '>', '>=']), sub()]
+        return '(%s)' % ' '.join(parts)
+    keys[0] += 1
+    k = keys[0]
+    return 'W(%d, %s)' % (k, ', '.join(sub() for _ in range(rnd.randint(1, 3))))
+
+
+def _vexpr_term(node):
+    """semantic-mode export: V(k) -> EOp k []; W(k, e..) -> EOp k [e..]; the rewritten constructs as in export/exprs.py"""
+    import ast
+    from export import exprs as ex
+    if isinstance(node, ast.Call) and isinstance(node.func, ast.Name) and node.func.id in ('V', 'W'):
+        return 'EOp %d [%s]' % (node.args[0].value, '; '.join(_vexpr_term(a) for a in node.args[1:]))
+    if isinstance(node, ast.BoolOp):
+        vals = [_vexpr_term(v) for v in node.values]
+        out = vals[-1]
+        for v in reversed(vals[:-1]):
+            out = 'EBool %s (%s) (%s)' % ('true' if isinstance(node.op, ast.And) else 'false', v, out)
+        return out
+    if isinstance(node, ast.UnaryOp) and isinstance(node.op, ast.Not):
+        return 'ENot (%s)' % _vexpr_term(node.operand)
+    if isinstance(node, ast.IfExp):
+        return 'EIfExp (%s) (%s) (%s)' % (_vexpr_term(node.test), _vexpr_term(node.body), _vexpr_term(node.orelse))
+    if isinstance(node, ast.Compare):
+        return 'ECmp (%s) [%s]' % (_vexpr_term(node.left), '; '.join('(%d, %s)' % (ex.COPS[type(o)], _vexpr_term(c))
+                                                                      for o, c in zip(node.ops, node.comparators)))
+    raise ValueError(type(node).__name__)
+
+
+def expression_tie(run, rnd, quick):
+    """coq/Expr: (a) the model of conditional_expressions + logical_expressions (ExprLang.tr) against the real passes:
+    every maximal expression of generated programs before / after the two passes, compared structurally in Coq;
+    (b) the expression semantics, with the operator table generated from malt/operators on this run, against CPython.
+    -> (message or None, programs on which (a) fails)"""
+    import ast, copy
+    from export import exprs as ex_mod
+    from malt.converters import conditional_expressions, logical_expressions
+    from malt.core import converter
+    orig_c, orig_l = conditional_expressions.transform, logical_expressions.transform
+    captured = {}
+
+    def wrap_c(node, ctx):
+        captured['in'] = copy.deepcopy(node)
+        captured['eqov'] = bool(ctx.user.options.uses(converter.Feature.EQUALITY_OPERATORS))
+        return orig_c(node, ctx)
+
+    def wrap_l(node, ctx):
+        out = orig_l(node, ctx)
+        captured['out'] = copy.deepcopy(out)      # later passes mutate the tree in place
+        return out
+    n = 60 if quick else 600
+    opts = progs.Opts(loop_else=False, reads='safe', boolops=True, comprehension=True, max_stmts=9, fresh_for_targets=True,
+                      try_=False, with_=False)
+    srcs = [progs.gen_function(rnd, opts) for _ in range(n)]
+    mod = convrun.load_module(srcs, PRELUDE)
+    cases, meta, skipped = [], [], 0
+    F = converter.Feature
+    conditional_expressions.transform, logical_expressions.transform = wrap_c, wrap_l
+    try:
+        for i, src in enumerate(srcs):
+            for feats in (None, (F.EQUALITY_OPERATORS,)):
+                captured.clear()
+                try:
+                    convert(getattr(mod, 'f%d' % i), False, feats)
+                except Exception:   # noqa
+                    pass
+                if 'in' not in captured or 'out' not in captured:
+                    skipped += 1
+                    continue
+                ein, eout = ex_mod.statement_expressions(captured['in']), ex_mod.statement_expressions(captured['out'])
+                if len(ein) != len(eout):
+                    return 'the expression passes changed the statement structure of\n%s' % src, [src]
+                ex = ex_mod.Exporter()
+                for a, b in zip(ein, eout):
+                    if not any(isinstance(x, (ast.BoolOp, ast.IfExp, ast.Compare)) or (isinstance(x, ast.UnaryOp) and isinstance(x.op, ast.Not))
+                               for x in ast.walk(a)):
+                        continue
+                    try:
+                        ta, tb = ex.expr(a), ex.expr(b)
+                    except ex_mod.Unsupported:
+                        skipped += 1
+                        continue
+                    cases.append('(%d, %s, %s, %s)' % (len(meta), 'true' if captured['eqov'] else 'false', ta, tb))
+                    meta.append((src, ast.unparse(a), repr(feats)))
+    finally:
+        conditional_expressions.transform, logical_expressions.transform = orig_c, orig_l
+    run.count(len(cases))
+    run.extra['expression_pass_cases'] = len(cases)
+    # (b) semantics against CPython
+    vcases, vmeta = [], []
+    for j in range(250 if quick else 2500):
+        keys = [0]
+        text = _gen_vexpr(rnd, 0, keys)
+        dv = [rnd.choice([0, 0, 1, 1, 2, 3]) for _ in range(keys[0] + 2)]
+        log, pos = [], [0]
+
+        def V(k):
+            log.append(k)
+            pos[0] += 1
+            return dv[pos[0] - 1] if pos[0] - 1 < len(dv) else 0
+
+        def W(k, *a):
+            return V(k)
+        val = eval(text, {'V': V, 'W': W})
+        val = int(val)
+        vcases.append('(%d, %s, [%s], [%s], %d)' % (j, _vexpr_term(ast.parse(text, mode='eval').body), '; '.join(map(str, dv)),
+                                                   '; '.join(map(str, log)), val))
+        vmeta.append((text, dv))
+    run.count(len(vcases))
+    run.extra['expression_semantics_runs_against_cpython'] = len(vcases)
+    body = ['From Coq Require Import List Arith Bool.', 'Import ListNotations.',
+            'Require Import MV.Expr.ExprLang MV.Expr.ExprCheck MV.Generated.C01_ops_gen.',
+            'Definition cases : list ecase := [', ';\n'.join(cases), '].',
+            'Definition vcases : list vcase := [', ';\n'.join(vcases), '].',
+            'Eval vm_compute in failing_ecases cases.',
+            'Eval vm_compute in (failing_vcases ops_gen vcases, tt).']
+    rc, out = vlib.coq_eval('C01', 'expressions', '\n'.join(body), timeout=600)
+    bad = vlib.parse_coq_list_of_nat(out) if rc == 0 else None
+    mv = re.search(r'=\s*\((\[[^\]]*\]),\s*tt\)', out)
+    vbad = [int(x) for x in re.findall(r'\d+', mv.group(1))] if mv else None
+    if bad is None or vbad is None:
+        return 'expression passes: model evaluation failed: ' + out[-400:], []
+    if vbad:
+        return ('the expression semantics (coq/Expr/ExprLang.v with the operator table generated from malt/operators) disagrees with '
+                'CPython on %d expressions, e.g. %s under values %r' % (len(vbad), vmeta[vbad[0]][0], vmeta[vbad[0]][1])), []
+    if bad:
+        src, etext, feats = meta[bad[0]]
+        return ('the model of conditional_expressions / logical_expressions and the real passes disagree on %d expressions, e.g. %s '
+                '(features %s) in\n%s' % (len(bad), etext, feats, src)), sorted({meta[i][0] for i in bad})
+    return None, []
 
 
 def functionalise_tie(run, rnd, quick):
@@ -444,7 +597,7 @@ def check(run):
         tie_msg = str(e)
         run.note(tie_msg)
     if tie_ok:
-        vlib.standard_proof_step(run, ['Lower/PassesCheck.vo', 'Lower/Compose.vo', 'Lower/Source.vo', 'Fn/FnProofs.vo', 'Fn/FnCheck.vo'])
+        vlib.standard_proof_step(run, ['Lower/PassesCheck.vo', 'Lower/Compose.vo', 'Lower/Source.vo', 'Fn/FnProofs.vo', 'Fn/FnCheck.vo', 'Expr/ExprProofs.vo', 'Expr/ExprCheck.vo', 'Generated/C01_ops_gen.vo'])
     rnd = random.Random(run.seed * 104729 + 1)
     lower_bad, lower_programs = None, []
     nprog = 120 if quick else 1500
@@ -493,6 +646,8 @@ def check(run):
             lower_bad, lower_programs = lowering_tie(run, rnd, quick)
             if not lower_bad:
                 lower_bad, lower_programs = functionalise_tie(run, rnd, quick)
+            if not lower_bad:
+                lower_bad, lower_programs = expression_tie(run, rnd, quick)
         mod = convrun.load_module(allsrc, PRELUDE)
         nconv = 0
         for i, src in enumerate(allsrc):
